@@ -25,4 +25,4 @@ for prop in $PROPS; do
   echo "rc($prop)=${PIPESTATUS[0]}"
 done
 TAG=$(python3 -c "import hashlib,sys;print(hashlib.sha1(sys.argv[1].encode()).hexdigest()[:8])" $S)
-rm -rf $S /verif/build/native_$TAG /verif/build/dnative_$TAG
+rm -rf $S /verif/build/native_$TAG /verif/build/dnative_$TAG /verif/build/kani/$TAG
